@@ -53,6 +53,8 @@ func applyFn(tag int) dataframe.FuncType {
 			}
 			return out
 		}
+	case 8:
+		return func(xs []any) any { return xs } // identity: returns the slice it was given
 	default:
 		return func(xs []any) any {
 			out := make([]bool, len(xs))
@@ -774,8 +776,9 @@ func genSeq(r *Rng, mode string, steps int) *Enc {
 		s.pool = []*DF{df}
 		s.names = []string{"a", "b", "c", "d", "zz"}
 	case "c19":
-		s.kinds = []string{"shift"}
-		steps = r.Range(1, 3)
+		// Shift, followed by in-place edits of either frame: "the source is unchanged, Shift(0) is a copy"
+		s.kinds = []string{"shift", "shift", "shift", "setcell", "fillna", "droprow"}
+		steps = r.Range(1, 5)
 		s.pool = []*DF{r.Frame(r.SmallN()+r.Intn(4), r.Range(0, 3), names)}
 	default:
 		npool := r.Range(1, 3)
